@@ -82,7 +82,12 @@ for _mod, _K, _vp, _vk, _ts, _kws, _cond, _extra in TABLE:
         continue
     for _kw, _req in _kws.items():
         _p = f"e.{_kw}"
+        if _kw == "additionalItems":      # default True, never NotPassed
+            _wf.append(f"(attr_absent(e,'{_kw}') or ({_req.replace('{p}', _p)}))")
+            continue
         _wf.append(f"(attr_absent(e,'{_kw}') or is_np({_p}) or ({_req.replace('{p}', _p).replace('{x}', _p)}))")
+_wf.append("(attr_absent(e,'additionalProperties') or is_bool(e.additionalProperties) or is_obj(e.additionalProperties))")
+_wf.append("(attr_absent(e,'patternProperties') or is_np(e.patternProperties) or dict_wf(e.patternProperties))")
 _wf.append("(attr_absent(e,'const') or is_np(e.const) or is_json(e.const))")
 _wf.append("(attr_absent(e,'enum') or is_np(e.enum) or (is_json(e.enum) and is_list(e.enum)))")
 _wf.append("(attr_absent(e,'uniqueItems') or is_np(e.uniqueItems) or is_bool(e.uniqueItems))")
